@@ -320,7 +320,7 @@ def my_rename(a, b): hit("rename"); real_rename(a, b); hit("after_rename")
 os.rename = my_rename; os.replace = my_rename
 from mwlib.utils.status import Status
 s = Status(final)
-s.status = {"progress": 50, "status": "new" * 200}
+s.status = {"progress": 50, "status": "new" * 200} if len(sys.argv) < 5 else {"progress": 1.0, "status": "short"}
 try:
     s.dump()
 except OSError:
@@ -344,6 +344,18 @@ print(count[0])
             except ValueError as e:
                 ok, state = False, f"unparsable: {e}"
             results.append({"producer": "Status.dump", "mode": mode, "position": k, "final": state, "ok": ok})
+            # fault sequence: whatever the failed producer left behind (a stale, longer '<file>.tmp'), the next, undisturbed
+            # dump of a shorter status publishes exactly that status
+            subprocess.run([sys.executable, "-c", code, final, "99", mode, "short"], capture_output=True, text=True, env=dict(os.environ))
+            try:
+                with open(final) as f:
+                    d = json.load(f)
+                ok, state = d.get("status") == "short", str(d.get("status"))[:20]
+            except FileNotFoundError:
+                ok, state = False, "missing"
+            except ValueError as e:
+                ok, state = False, f"unparsable: {e}"
+            results.append({"producer": "Status.dump", "mode": mode + ", then an undisturbed shorter dump", "position": k, "final": state, "ok": ok})
     return results
 
 
@@ -364,7 +376,7 @@ def _bounded_rest(chk):
         shutil.rmtree(tmp, ignore_errors=True)
     bad = [r for r in res if not r["ok"]]
     chk.bounded_result("kill_or_ENOSPC_at_every_fs_call_position[Status.dump]", len(res), len({(r['mode'], r['final']) for r in res}) + 1, True,
-                       "real Status.dump in a subprocess, os._exit / OSError(ENOSPC) injected at FS-call positions 1..8 (open, two half writes, close, rename); reader = json.load",
+                       "real Status.dump in a subprocess, os._exit / OSError(ENOSPC) injected at FS-call positions 1..8 (open, two half writes, close, rename), each followed by an undisturbed dump of a shorter status; reader = json.load",
                        [{"detail": str(b), "witness": b, "class": "partial-file"} for b in bad[:1]], res[:3])
 
 
